@@ -623,6 +623,5 @@ func init() {
 			}
 			return u
 		},
-		Exhaustive: func(a *core.Agg) bool { return true },
 	})
 }
